@@ -50,6 +50,10 @@ theorem reselect_error_heights (r1 r2 : Repo) (o : StepOut) (h : reselect r1 = .
       · cases h
     · cases h
 
+/-- a branch with one more header at its tip (what `Branch.Add` produces). -/
+abbrev Branch.pushed (b : Branch) (x : HData) : Branch :=
+  { b with headers := b.headers ++ [x], hmap := b.hmap.set x.hdr.id (b.height + 1) }
+
 /-- the three things a submission can do to the forest. -/
 inductive Shape (r : Repo) (h : Hdr) (ok : Bool) (r' : Repo) : Prop
   | same (ha : r'.arena = r.arena) (hb : r'.branches = r.branches) (hh : r'.heights = r.heights)
@@ -58,10 +62,8 @@ inductive Shape (r : Repo) (h : Hdr) (ok : Bool) (r' : Repo) : Prop
       (ha : r'.arena = r.arena ++ [nb]) (hb : r'.branches = r.branches ++ [r.arena.length])
       (hh : r'.heights = r.heights.set h.id (ph + 1))
   | extend (pb : Nat) (ph : Int) (lst : HData) (w : Nat) (hp : Passed r h ok pb ph lst)
-      (hprev : lst.hdr.id = h.prev) (hlen : pb < r.arena.length)
-      (ha : r'.arena = r.arena.set pb
-        { (r.br pb) with headers := (r.br pb).headers ++ [{ hdr := h, work := lst.work + w }],
-                         hmap := (r.br pb).hmap.set h.id ((r.br pb).height + 1) })
+      (hprev : lst.hdr.id = h.prev) (hlen : pb < r.arena.length) (hbw : Work.blockWork h.bits = some w)
+      (ha : r'.arena = r.arena.set pb ((r.br pb).pushed { hdr := h, work := lst.work + w }))
       (hb : r'.branches = r.branches) (hh : r'.heights = r.heights.set h.id (ph + 1))
 
 theorem forkHeader_shape (r : Repo) (h : Hdr) (ok : Bool) (pb : Nat) (ph : Int) (lst : HData)
@@ -100,8 +102,8 @@ theorem extendHeader_shape (r : Repo) (h : Hdr) (ok : Bool) (pb : Nat) (ph : Int
         simp only [Option.getD_none] at hlast
         cases hlast
     have harena : (addToBranch r h pb ph lst w).arena = r.arena.set pb
-        { (r.br pb) with headers := (r.br pb).headers ++ [{ hdr := h, work := lst.work + w }],
-                         hmap := (r.br pb).hmap.set h.id ((r.br pb).height + 1) } := by
+        ((r.br pb).pushed { hdr := h, work := lst.work + w }) := by
+      unfold Branch.pushed
       have e : ({ (r.br pb) with headers := (r.br pb).headers ++ [{ hdr := h, work := lst.work + w }] } : Branch).height
           = (r.br pb).height + 1 := by
         unfold Branch.height
@@ -122,13 +124,13 @@ theorem extendHeader_shape (r : Repo) (h : Hdr) (ok : Bool) (pb : Nat) (ph : Int
     · subst hpl
       have e : (addToBranch r h r.longest ph lst w).longest = r.longest := rfl
       simp only [e, ne_eq, not_true_eq_false, ↓reduceIte, hheight, hnc]
-      exact .extend r.longest ph lst w hp hprev hlen harena hbranches hheights
+      exact .extend r.longest ph lst w hp hprev hlen hbw harena hbranches hheights
     · simp only [hl, hpl, ne_eq, not_false_eq_true, ↓reduceIte]
       generalize hr : reselect _ = res
       cases res with
       | error x =>
         obtain ⟨r2, o⟩ := x
-        exact .extend pb ph lst w hp hprev hlen (by simp only; rw [reselect_error_arena _ _ _ hr]; exact harena)
+        exact .extend pb ph lst w hp hprev hlen hbw (by simp only; rw [reselect_error_arena _ _ _ hr]; exact harena)
           (by simp only; rw [reselect_error_branches _ _ _ hr]; exact hbranches)
           (by simp only; rw [reselect_error_heights _ _ _ hr]; exact hheights)
       | ok y =>
@@ -141,8 +143,8 @@ theorem extendHeader_shape (r : Repo) (h : Hdr) (ok : Bool) (pb : Nat) (ph : Int
         split
         · rw [hbr, hheight]
           simp only [hnc, ↓reduceIte]
-          exact .extend pb ph lst w hp hprev hlen (by rw [hk]; exact harena) (by rw [hkb]; exact hbranches) (by rw [hkh]; exact hheights)
-        · exact .extend pb ph lst w hp hprev hlen (by rw [hk]; exact harena) (by rw [hkb]; exact hbranches) (by rw [hkh]; exact hheights)
+          exact .extend pb ph lst w hp hprev hlen hbw (by rw [hk]; exact harena) (by rw [hkb]; exact hbranches) (by rw [hkh]; exact hheights)
+        · exact .extend pb ph lst w hp hprev hlen hbw (by rw [hk]; exact harena) (by rw [hkb]; exact hbranches) (by rw [hkh]; exact hheights)
 
 /-- **every submission is one of the three shapes** (automatic clean not due). -/
 theorem processHeader_shape (r : Repo) (h : Hdr) (ok : Bool)
